@@ -7,7 +7,6 @@ import (
 	"fmt"
 	"math"
 	"os"
-	"reflect"
 	"sort"
 	"strconv"
 	"strings"
@@ -205,7 +204,8 @@ func (s *c08sys[V]) deadline(d time.Duration) int64 {
 func (s *c08sys[V]) cfg() string { return fmt.Sprintf("[default=%d, t=%d]", s.def, s.now()) }
 
 func (s *c08sys[V]) implHas(k string) bool {
-	return seqmc.Get(s.ca, "cache", "items").MapIndex(reflect.ValueOf(k)).IsValid()
+	_, ok := s.ca.List()[k]
+	return ok
 }
 
 // modelSet is the reference meaning of Set; it returns whether an error is required (1), forbidden (0)
